@@ -102,6 +102,36 @@ def dec_calls(js):
     return None if js is None else [(n, tuple(dec_arg(a) for a in args)) for n, args in js]
 
 
+class Spec6(rmodel.FileSpec):
+    """FileSpec whose file-level text varies from file to file (third Oscar header line, JETSCAPE version tag), so that
+    anything remembered from an earlier file under the same path shows"""
+    version = "SMASH-3.1"
+    jver = "v2"
+
+    def lines(self):
+        L = super().lines()
+        if self.is_jetscape():
+            L[0] = L[0].replace("\tv2\t", "\t" + self.jver + "\t")
+        else:
+            L[2] = "# " + self.version
+        return L
+
+
+VERSIONS = ["SMASH-3.1", "SMASH-3.1rc-23-g59a05e65f", "SMASH-3.2", "SMASH-2.0.2-7", "SMASH-3.1-220-ge0fbc0856"]
+JVERS = ["v2", "v2", "v3", "v2.1"]
+SIGMAS = [("0.000314633", "6.06164e-07"), ("0.00271828", "3.5e-06"), ("1.25", "0.015625"), ("42", "0.5"),
+          ("7.5e-05", "1e-09")]
+
+
+def as_spec6(spec, version=None, jver=None):
+    spec.__class__ = Spec6
+    if version is not None:
+        spec.version = version
+    if jver is not None:
+        spec.jver = jver
+    return spec
+
+
 class Scenario:
     def __init__(self, spec, events=None, ctor=None, ops=()):
         self.spec, self.events, self.ctor, self.ops = spec, events, ctor, list(ops)
@@ -113,15 +143,17 @@ class Scenario:
     def to_json(self):
         s = self.spec
         return dict(spec=dict(kind=s.kind, cols=list(s.cols), events=s.events, labels=s.labels, impacts=s.impacts,
-                              tab_headers=s.tab_headers, trailing_nl=s.trailing_nl, sigma=list(s.sigma)),
+                              tab_headers=s.tab_headers, trailing_nl=s.trailing_nl, sigma=list(s.sigma),
+                              version=getattr(s, "version", "SMASH-3.1"), jver=getattr(s, "jver", "v2")),
                     events=list(self.events) if isinstance(self.events, tuple) else self.events,
                     events_is_tuple=isinstance(self.events, tuple), ctor=enc_calls(self.ctor), ops=enc_calls(self.ops))
 
     @staticmethod
     def from_json(d):
         s = d["spec"]
-        spec = rmodel.FileSpec(s["kind"], s["cols"], s["events"], labels=s["labels"], impacts=s["impacts"],
-                               tab_headers=s["tab_headers"], trailing_nl=s["trailing_nl"], sigma=tuple(s["sigma"]))
+        spec = Spec6(s["kind"], s["cols"], s["events"], labels=s["labels"], impacts=s["impacts"],
+                     tab_headers=s["tab_headers"], trailing_nl=s["trailing_nl"], sigma=tuple(s["sigma"]))
+        spec.version, spec.jver = s.get("version", "SMASH-3.1"), s.get("jver", "v2")
         ev = tuple(d["events"]) if d.get("events_is_tuple") else d["events"]
         return Scenario(spec, ev, dec_calls(d["ctor"]), dec_calls(d["ops"]) or [])
 
@@ -153,6 +185,11 @@ def gen_spec(rng):
                     row[j] = rng.choice(LONG_TOKENS)
     if not spec.is_jetscape() and rng.random() < 0.15:
         spec.trailing_nl = False
+    # file-level text differs from file to file: header version, trailer (sigmaGen), impact parameters
+    as_spec6(spec, rng.choice(VERSIONS), rng.choice(JVERS))
+    spec.sigma = rng.choice(SIGMAS)
+    off = rng.choice([0.0, 0.0, 0.125, 0.25, 3.0, 7.5])
+    spec.impacts = ["%.3f" % (off + 0.5 * i) for i in range(len(spec.events))]
     return spec
 
 
@@ -295,16 +332,22 @@ def write_file(text):
 class RealRun:
     """everything observed of the real code on one scenario"""
 
-    def __init__(self, sc):
+    def __init__(self, sc, paths=None):
+        """paths = (input, written, re-written) when the caller decides where the files live (sessions re-use paths);
+        the input file is (over)written by `load()`"""
         self.sc = sc
         spec = sc.spec
         self.k2l = key2line(spec)
-        d = tmpdir()
-        fd, self.path = tempfile.mkstemp(suffix=spec.suffix(), prefix="in_", dir=d)
-        with os.fdopen(fd, "w", newline="") as f:
-            f.write(spec.text())
-        self.out1 = self.path + ".w1" + spec.suffix()
-        self.out2 = self.path + ".w2" + spec.suffix()
+        self.own_paths = paths is None
+        if paths is None:
+            d = tmpdir()
+            fd, self.path = tempfile.mkstemp(suffix=spec.suffix(), prefix="in_", dir=d)
+            os.close(fd)
+            self.out1 = self.path + ".w1" + spec.suffix()
+            self.out2 = self.path + ".w2" + spec.suffix()
+        else:
+            self.path, self.out1, self.out2 = paths
+        self.skipped = None
         self.keep = None          # line numbers kept by the constructor filters (reference semantics)
         self.dops = []            # driver encoding of the method history
         self.origins = None       # ghost: file index of every held event ([] = placeholder)
@@ -315,12 +358,16 @@ class RealRun:
         self.obj = self.obj2 = None
 
     def cleanup(self):
+        if not self.own_paths:
+            return
         for p in (self.path, self.out1, self.out2):
             if os.path.exists(p):
                 os.unlink(p)
 
     def load(self):
         sc, spec = self.sc, self.sc.spec
+        with open(self.path, "w", newline="") as f:
+            f.write(spec.text())
         kw = {}
         if sc.events is not None:
             kw["events"] = sc.events
@@ -365,9 +412,11 @@ class RealRun:
                 self.dops.append("p:" + ",".join(str(self.k2l[key_of(spec, p)]) for ev in want for p in ev))
             getattr(obj, name)(*args)
 
-    def write_cycle(self):
+    def do_write(self):
         spec, obj = self.sc.spec, self.obj
         self.state = state_str(spec, obj, self.k2l)
+        if os.path.exists(self.out1):
+            os.unlink(self.out1)         # a writer that raises must not leave the previous file of this path behind
         try:
             obj.print_particle_lists_to_file(self.out1)
         except Exception as e:
@@ -375,6 +424,11 @@ class RealRun:
             return
         with open(self.out1, newline="") as f:
             self.w = f.read()
+
+    def do_reread(self):
+        if self.w is None or isinstance(self.w, Exception):
+            return
+        spec = self.sc.spec
         try:
             self.obj2 = open_obj(spec, self.out1)
         except Exception as e:
@@ -382,12 +436,21 @@ class RealRun:
             return
         k2l2, ii2 = maps_of_text(self.w, False)
         self.rr = state_str(spec, self.obj2, k2l2, with_fmt=True, ii=ii2)
+
+    def do_rewrite(self):
+        if self.obj2 is None:
+            return
         try:
             self.obj2.print_particle_lists_to_file(self.out2)
             with open(self.out2, newline="") as f:
                 self.w2 = f.read()
         except Exception as e:
             self.w2 = e
+
+    def write_cycle(self):
+        self.do_write()
+        self.do_reread()
+        self.do_rewrite()
 
     def answer(self):
         """the driver's answer format"""
@@ -421,6 +484,225 @@ def real_run(sc):
         raise Skip(f"filter raised {type(e).__name__}: {e}")
     r.write_cycle()
     return r
+
+
+# ----------------------------------------------------------------------------- sessions: several objects, re-used paths
+class Session:
+    """A sequence of round trips in ONE process.  `steps[i] = (scenario, (in, out, out2))` with symbolic path slots
+    (`dat3`, `oscar1`, …: the same slot = the same path on disk); `actions` = the order of `load` (write the input
+    file, open it, run the filter history), `write`, `reread`, `rewrite` of the steps.  About half of the slots are
+    re-used by later steps with DIFFERENT content (an output path written, read, overwritten and read again; an input
+    path whose content changed; a path used by an Oscar and later by a Jetscape object), and the round trips of the
+    objects of a group are interleaved.  Anything remembered per path / per class from an earlier file therefore
+    shows as a difference of the later round trip."""
+
+    def __init__(self, steps=None, actions=None):
+        self.steps = steps or []
+        self.actions = actions or []
+
+    def to_json(self):
+        return dict(steps=[dict(scenario=sc.to_json(), slots=list(sl)) for sc, sl in self.steps],
+                    actions=[[k, i] for k, i in self.actions])
+
+    @staticmethod
+    def from_json(d):
+        return Session([(Scenario.from_json(x["scenario"]), tuple(x["slots"])) for x in d["steps"]],
+                       [(k, i) for k, i in d["actions"]])
+
+    def without(self, drop):
+        """the session without the steps in `drop`"""
+        keep = [i for i in range(len(self.steps)) if i not in drop]
+        ren = {old: new for new, old in enumerate(keep)}
+        return Session([self.steps[i] for i in keep], [(k, ren[i]) for k, i in self.actions if i in ren]), ren
+
+    def describe(self):
+        return [dict(step=i, slots=list(sl), **sc.describe()) for i, (sc, sl) in enumerate(self.steps)]
+
+
+def slot_suffix(slot):
+    return ".dat" if slot.startswith("dat") else ".oscar"
+
+
+class SessionBuilder:
+    def __init__(self, rng, reuse=0.5, pool_size=3):
+        self.rng, self.reuse, self.pool_size = rng, reuse, pool_size
+        self.pool = {".dat": [], ".oscar": []}
+        self.n = 0
+        self.session = Session()
+
+    def pick(self, suffix, forbidden):
+        rng = self.rng
+        cand = [p for p in self.pool[suffix] if p not in forbidden]
+        if cand and rng.random() < self.reuse:
+            return rng.choice(cand)
+        self.n += 1
+        slot = f"{suffix[1:]}{self.n}"
+        if len(self.pool[suffix]) < self.pool_size:
+            self.pool[suffix].append(slot)
+        elif rng.random() < 0.3:
+            self.pool[suffix][rng.randrange(self.pool_size)] = slot
+        return slot
+
+    def add_group(self, scs, share_out=None):
+        """the scenarios of one group: inputs on distinct paths; written files possibly on the same path (then one
+        after the other: write, read back, re-write, next object); everything else interleaved"""
+        rng, ses = self.rng, self.session
+        first = len(ses.steps)
+        used, outs = set(), []
+        for sc in scs:
+            suffix = ".dat" if sc.spec.is_jetscape() or rng.random() < 0.3 else ".oscar"
+            i = self.pick(suffix, used)
+            used.add(i)
+            ses.steps.append([sc, [i, None, None]])
+        for k, sc in enumerate(scs):
+            sl = ses.steps[first + k][1]
+            suffix = slot_suffix(sl[0])
+            same = [o for o in outs if slot_suffix(o) == suffix]
+            if same and (share_out if share_out is not None else rng.random() < 0.4):
+                o = rng.choice(same)
+            else:
+                o = self.pick(suffix, used | set(outs))
+            outs.append(o)
+            sl[1] = o
+        used |= set(outs)
+        for k in range(len(scs)):
+            sl = ses.steps[first + k][1]
+            sl[2] = self.pick(slot_suffix(sl[0]), used)
+            used.add(sl[2])
+            ses.steps[first + k] = (ses.steps[first + k][0], tuple(sl))
+        for k in range(len(scs)):
+            ses.actions.append(("load", first + k))
+        queues = {first + k: ["write", "reread", "rewrite"] for k in range(len(scs))}
+        busy = {}
+        while queues:
+            ready = [i for i, q in queues.items() if q[0] != "write" or busy.get(ses.steps[i][1][1], i) == i]
+            i = rng.choice(ready)
+            a = queues[i].pop(0)
+            out = ses.steps[i][1][1]
+            if a == "write":
+                busy[out] = i
+            ses.actions.append((a, i))
+            if not queues[i]:
+                del queues[i]
+                busy.pop(out, None)
+        return list(range(first, first + len(scs)))
+
+
+def build_session(rng, scenarios, reuse=0.5):
+    b = SessionBuilder(rng, reuse)
+    i = 0
+    while i < len(scenarios):
+        k = rng.choice([1, 1, 2, 2, 3, 4])
+        b.add_group(scenarios[i:i + k])
+        i += k
+    return b.session
+
+
+def run_session(session):
+    """executes the actions; returns one RealRun per step (`.skipped` set when its load / filter history raised)"""
+    d = tempfile.mkdtemp(prefix="ses_", dir=tmpdir())
+    paths = {}
+
+    def path_of(slot):
+        if slot not in paths:
+            paths[slot] = os.path.join(d, "f_" + slot + slot_suffix(slot))
+        return paths[slot]
+    runs = [RealRun(sc, tuple(path_of(x) for x in sl)) for sc, sl in session.steps]
+    try:
+        for kind, i in session.actions:
+            r = runs[i]
+            if r.skipped:
+                continue
+            if kind == "load":
+                try:
+                    r.load()
+                except Exception as e:
+                    r.skipped = f"load raised {type(e).__name__}"
+                    continue
+                try:
+                    r.run_ops()
+                except Exception as e:
+                    r.skipped = f"filter raised {type(e).__name__}"
+            elif kind == "write":
+                r.do_write()
+            elif kind == "reread":
+                r.do_reread()
+            elif kind == "rewrite":
+                r.do_rewrite()
+    finally:
+        shutil.rmtree(d, ignore_errors=True)
+    return runs
+
+
+def session_oracle(session, k):
+    runs = run_session(session)
+    r = runs[k]
+    if r.skipped or r.state is None:
+        return None
+    return oracle(session.steps[k][0], r)
+
+
+def shrink_session(session, k, key, budget_s=25.0):
+    """drop steps (other than the failing one) while the same failure stays; first those that share no path with it"""
+    t0 = time.time()
+
+    def fails(ses, kk):
+        try:
+            res = session_oracle(ses, kk)
+        except Exception:
+            return False
+        return res is not None and res[0] == key
+    cur, kk = session, k
+    mine = set(cur.steps[kk][1])
+    unrelated = {i for i, (_, sl) in enumerate(cur.steps) if i != kk and not (mine & set(sl))}
+    if unrelated:
+        cand, ren = cur.without(unrelated)
+        if fails(cand, ren[kk]):
+            cur, kk = cand, ren[kk]
+    changed = True
+    while changed and time.time() - t0 < budget_s:
+        changed = False
+        for i in range(len(cur.steps) - 1, -1, -1):
+            if i == kk:
+                continue
+            cand, ren = cur.without({i})
+            if fails(cand, ren[kk]):
+                cur, kk, changed = cand, ren[kk], True
+                break
+    return cur, kk
+
+
+def path_sequences(rng):
+    """small sessions aimed at path re-use: A written to P and read back, then B (other content) written to the same
+    P and read back; A loaded from P, then B loaded from the same P (its content changed); three objects of a group
+    written to one path with everything else interleaved; an Oscar file and a JETSCAPE file sharing a path"""
+    out = []
+    for kinds in (["jetscape"], ["jetscapeP"], ["oscar2013"], ["extended"], ["ascii"], ["jetscape", "oscar2013"]):
+        sfx = "dat" if any(k.startswith("jetscape") for k in kinds) else "oscar"
+        for mode in ("out", "in", "group"):
+            scs = []
+            for j in range(3):
+                spec = rmodel.gen_spec(rng, kinds=[kinds[j % len(kinds)]], nev=rng.randint(1, 3))
+                as_spec6(spec, VERSIONS[j % len(VERSIONS)], JVERS[(j + 1) % len(JVERS)])
+                spec.sigma = SIGMAS[j % len(SIGMAS)]
+                spec.impacts = ["%.3f" % (j + 0.5 * i) for i in range(len(spec.events))]
+                scs.append(Scenario(spec))
+            if mode == "group":
+                b = SessionBuilder(rng, reuse=0.0)
+                b.pool = {".dat": [], ".oscar": []}
+                b.add_group(scs, share_out=True)
+                # all three on the suffix of the family
+                ses = b.session
+                ses.steps = [(sc, tuple(sfx + x.lstrip("daoscr") + "g" for x in sl)) for sc, sl in ses.steps]
+                out.append(ses)
+                continue
+            ses = Session()
+            for j, sc in enumerate(scs):
+                sl = (f"{sfx}in{j}", f"{sfx}P", f"{sfx}w{j}") if mode == "out" else (f"{sfx}P", f"{sfx}o{j}", f"{sfx}w{j}")
+                ses.steps.append((sc, sl))
+                ses.actions += [("load", j), ("write", j), ("reread", j), ("rewrite", j)]
+            out.append(ses)
+    return out
 
 
 # ----------------------------------------------------------------------------- float()/'%g' tables for the driver
@@ -535,7 +817,11 @@ def correspond(ctx):
                 "in %g/%.9g, with and without final newline) x events= none / k / (a,b) x optional filters= x a history of 0-3 "
                 "filter methods (35% event-removing cuts, boundary-biased arguments); the real object is written, read back and "
                 "written again; bytes of both files, object state before writing and after reading back, and the observation "
-                "hypotheses of the theorems on the written bytes are compared with the Lean model; non-trivial = selection, "
+                "hypotheses of the theorems on the written bytes are compared with the Lean model; all cases of a run live in "
+                "one process as a session: about half of the input / output paths are re-used by later cases with different "
+                "content (write, read, overwrite, read; input path whose content changed; Oscar and JETSCAPE on one path) and "
+                "the round trips of 1-4 objects are interleaved; header version, sigmaGen and impact parameters differ from "
+                "file to file; non-trivial = selection, "
                 "constructor filters or at least one filter method; distinct by (file text, events=, filters, history)")
     ctx.assumptions.append("float()/int() and '%g'/'%.9g'/'%d' are parameters of the model (tables supplied by Python for "
                            "every token/value of a case); their contracts H_int, H_idem, H_prec are checked on every supplied "
@@ -545,24 +831,32 @@ def correspond(ctx):
                            "checks the hypotheses `obsKind` line by line")
     cases = []
     for d in corpus():
-        cases.append(Scenario.from_json(d["input"]["scenario"]))
+        if "scenario" in d["input"]:
+            cases.append(Scenario.from_json(d["input"]["scenario"]))
     N = ctx.n(220, 4000)
     for _ in range(N):
         cases.append(gen_scenario(rng))
     lines, runs = [], []
     all_ok = True
-    for sc in cases:
-        try:
-            r = real_run(sc)
-        except Skip as e:
-            ctx.count("skipped/" + str(e).split(":")[0][:40])
-            continue
-        line, ptab, ftab = driver_line(sc, r)
-        all_ok &= check_contracts(ctx, ptab, ftab)
-        lines.append(line)
-        runs.append((sc, r))
+    # all cases run in ONE session: half of the paths are re-used with different content, round trips interleaved
+    sessions = path_sequences(rng) + [build_session(rng, cases)]
+    reused = 0
+    for ses in sessions:
+        seen_slots = set()
+        for _, sl in ses.steps:
+            reused += sum(1 for x in set(sl) if x in seen_slots)
+            seen_slots |= set(sl)
+        for (sc, sl), r in zip(ses.steps, run_session(ses)):
+            if r.skipped or r.state is None:
+                ctx.count("skipped/" + str(r.skipped)[:40])
+                continue
+            line, ptab, ftab = driver_line(sc, r)
+            all_ok &= check_contracts(ctx, ptab, ftab)
+            lines.append(line)
+            runs.append((sc, r, ses, sl))
+    ctx.count("path-slots-reused", reused)
     outs = common.run_driver("C06", lines) if lines else []
-    for (sc, r), out in zip(runs, outs):
+    for (sc, r, ses, sl), out in zip(runs, outs):
         real = r.answer()
         model, obs = strip_obs(out)
         tag = f"{sc.spec.kind}/{'whole' if sc.events is None else 'single' if isinstance(sc.events, int) else 'range'}" \
@@ -581,12 +875,13 @@ def correspond(ctx):
         ctx.case((sc.spec.text(), sc.events, repr(enc_calls(sc.ctor)), repr(enc_calls(sc.ops))), nontrivial(sc, r),
                  sample=dict(scenario=sc.describe(), code=real[:300], model=model[:300]))
         if real != model:
-            ctx.brk("correspondence-broken", f"{sc.describe()}: code `{shorten(real)}` vs model `{shorten(model)}`",
-                    case=dict(scenario=sc.to_json(), code=real, model=model))
+            ctx.brk("correspondence-broken", f"{sc.describe()} (session paths {list(sl)}): code `{shorten(real)}` vs model "
+                                             f"`{shorten(model)}`",
+                    case=dict(scenario=sc.to_json(), slots=list(sl), code=real, model=model,
+                              note="ran inside a session with re-used paths; the model is per scenario"))
         elif not isinstance(r.w, Exception) and obs != "ok":
             ctx.brk("correspondence-broken", f"{sc.describe()}: observation hypothesis of the theorems fails on the written "
                                              f"file ({obs})", case=dict(scenario=sc.to_json(), obs=obs))
-        r.cleanup()
     sweep_contracts(ctx)
 
 
@@ -660,6 +955,19 @@ def oracle(sc, r):
         return key("reread-raises-" + type(r.rr).__name__), \
             f"the written file cannot be read back: {type(r.rr).__name__}: {str(r.rr)[:120]}"
     o, o2 = r.obj, r.obj2
+    # file-level text: what the object holds / copies must be that of ITS input file (nothing remembered from another)
+    src = spec.lines()
+    if cls == "jetscape":
+        want_sig = (float(spec.sigma[0]), float(spec.sigma[1]))
+        for who, ob in (("loaded", o), ("read-back", o2)):
+            if tuple(float(x) for x in ob.get_sigmaGen()) != want_sig:
+                return key("sigmaGen"), f"sigmaGen of the {who} object {tuple(ob.get_sigmaGen())} != {want_sig} of its file"
+        if r.w.split("\n")[0] != src[0] or r.w.rstrip("\n").split("\n")[-1] != src[-1].strip():
+            return key("header-trailer"), "first / last line written are not those of the input file: " \
+                f"{r.w.split(chr(10))[0]!r} … {r.w.rstrip(chr(10)).split(chr(10))[-1]!r}"
+    else:
+        if r.w.split("\n")[:3] != src[:3]:
+            return key("header"), f"header lines written {r.w.split(chr(10))[:3]} != those of the input file {src[:3]}"
     evs, evs2 = o.particle_objects_list(), o2.particle_objects_list()
     if o.num_events() != o2.num_events() or len(evs) != len(evs2):
         return key("counts"), f"number of events {o.num_events()} -> {o2.num_events()}"
@@ -826,28 +1134,65 @@ def targeted(rng):
     return out
 
 
+def report(ctx, sc, res, seen, ses=None, k=None):
+    """a failing step: is it the scenario alone (fresh paths), or only the sequence?"""
+    alone, _ = oracle_scenario(sc)
+    if alone is not None:
+        if alone[0] in seen:
+            return
+        seen.add(alone[0])
+        small = shrink(sc, alone[0])
+        res2, _ = oracle_scenario(small)
+        res2 = res2 or alone
+        ctx.violation(res2[0], res2[1], dict(input=dict(scenario=small.to_json(), describe=small.describe()),
+                                             how_to_replay="./check C06 --replay <this file>"))
+        return
+    cls, _, sym = res[0].split(":", 2)
+    key = f"{cls}:sequence:{sym}"
+    if key in seen or ses is None:
+        return
+    seen.add(key)
+    small, kk = shrink_session(ses, k, res[0])
+    res2 = session_oracle(small, kk) or res
+    ctx.violation(key, f"only in a sequence of round trips in one process (paths re-used with different content; the same "
+                       f"scenario alone, on fresh paths, is fine): step {kk}: {res2[1]}",
+                  dict(input=dict(session=small.to_json(), failing_step=kk, describe=small.describe()),
+                       how_to_replay="./check C06 --replay <this file>"))
+
+
 def search(ctx, budget_s):
     rng = ctx.rng
     t0 = time.time()
     n = 0
     seen = set()
-    todo = [Scenario.from_json(d["input"]["scenario"]) for d in corpus()] + targeted(rng)
-    limit = 6000 if ctx.thorough else 350
-    while n < limit and (todo or time.time() - t0 < budget_s):
-        sc = todo.pop(0) if todo else gen_scenario(rng)
+    first = [Scenario.from_json(d["input"]["scenario"]) for d in corpus() if "scenario" in d["input"]] + targeted(rng)
+    sessions = [Session.from_json(d["input"]["session"]) for d in corpus() if "session" in d["input"]]
+    sessions += path_sequences(rng)
+    # single round trips on fresh paths (corpus, targeted), then sessions
+    for sc in first:
         n += 1
         res, r = oracle_scenario(sc)
         if r is None:
             continue
         ctx.case(("oracle", sc.spec.text(), sc.events, repr(enc_calls(sc.ctor)), repr(enc_calls(sc.ops))), nontrivial(sc, r))
         ctx.count("oracle/" + situation(sc, r))
-        if res and res[0] not in seen:
-            seen.add(res[0])
-            small = shrink(sc, res[0])
-            res2, _ = oracle_scenario(small)
-            res2 = res2 or res
-            ctx.violation(res2[0], res2[1], dict(input=dict(scenario=small.to_json(), describe=small.describe()),
-                                                 how_to_replay="./check C06 --replay <this file>"))
+        if res:
+            report(ctx, sc, res, seen)
+    limit = 6000 if ctx.thorough else 350
+    while n < limit and (sessions or time.time() - t0 < budget_s):
+        ses = sessions.pop(0) if sessions else build_session(rng, [gen_scenario(rng) for _ in range(40)])
+        runs = run_session(ses)
+        ctx.count("oracle/sessions")
+        for k, ((sc, sl), r) in enumerate(zip(ses.steps, runs)):
+            n += 1
+            if r.skipped or r.state is None:
+                continue
+            res = oracle(sc, r)
+            ctx.case(("oracle", sc.spec.text(), sc.events, repr(enc_calls(sc.ctor)), repr(enc_calls(sc.ops))),
+                     nontrivial(sc, r))
+            ctx.count("oracle/" + situation(sc, r))
+            if res:
+                report(ctx, sc, res, seen, ses, k)
     ctx.cov["oracle_cases"] = n
 
 
@@ -865,6 +1210,18 @@ def replay(ctx, path):
     if not inp:
         print(f"[C06] replay file names a broken obligation, not an input: {d.get('broken')}")
         return 1
+    if "session" in inp:
+        ses, k = Session.from_json(inp["session"]), inp["failing_step"]
+        res = session_oracle(ses, k)
+        for i, dsc in enumerate(ses.describe()):
+            print(f"[C06] step {i}{' <- failing' if i == k else ''}: {dsc}")
+        print("[C06] actions:", " ".join(f"{a}{i}" for a, i in ses.actions))
+        if res:
+            print(f"VIOLATION property=C06 replay={path}")
+            print(res[0], "-", res[1])
+            return 1
+        print("[C06] replay: property holds on this sequence now")
+        return 0
     sc = Scenario.from_json(inp["scenario"])
     res, r = oracle_scenario(sc)
     try:    # the model of the tree under test (Gen tables) for the side-by-side print
